@@ -11,6 +11,7 @@ import (
 	"encoding/json"
 	"fmt"
 	"io"
+	"math/big"
 	"os"
 	"strings"
 	"time"
@@ -358,6 +359,25 @@ func targetedMalformed() [][]byte {
 	add("PING\r\n")                            // inline command
 	add("\r\n")
 	add("*1\r\n$4\r\nPI")
+	// declared counts / lengths that are out of range but congruent to a small valid value modulo a
+	// power of two (a hand-rolled or narrowing integer parser wraps them into range): the rest of the
+	// stream is what the wrapped value would make well-formed, so a wrapping parser delivers a command
+	for _, base := range []string{"4294967296", "9223372036854775808", "18446744073709551616", "36893488147419103232", "184467440737095516160", "340282366920938463463374607431768211456"} {
+		b, _ := new(big.Int).SetString(base, 10)
+		for _, k := range []int64{1, 2} {
+			n := new(big.Int).Add(b, big.NewInt(k)).String()
+			args := "$4\r\nPING\r\n"
+			if k == 2 {
+				args += "$1\r\nx\r\n"
+			}
+			add("*" + n + "\r\n" + args)                                            // array count = base + k, k arguments follow
+			add("*-" + new(big.Int).Sub(b, big.NewInt(k)).String() + "\r\n" + args) // -(base - k) wraps to k
+		}
+		n4 := new(big.Int).Add(b, big.NewInt(4)).String()
+		add("*1\r\n$" + n4 + "\r\nPING\r\n")                                           // bulk length = base + 4
+		add("*1\r\n$-" + new(big.Int).Sub(b, big.NewInt(4)).String() + "\r\nPING\r\n") // -(base - 4) wraps to 4
+		add("*1\r\n$" + new(big.Int).Sub(b, big.NewInt(1)).String() + "\r\n")          // base - 1 wraps to -1 (nil bulk)
+	}
 	return append(out, truncatedStreams()...)
 }
 
